@@ -3,6 +3,7 @@ CONSTANTS
   BuiltinRoot = {"bool", "u8", "u16", "u32", "u64", "i8", "i16", "i32", "i64", "f32", "f64", "char", "Asn", "IpAddr", "Prefix", "String", "StringBytes", "StringChars", "StringLines", "StringBuf", "List", "Option", "Verdict", "Result"}
   BuiltinAlias = {"Some", "None", "Ok", "Err"}
   ValidCls = {"ascii", "nonascii"}
+  UB = 2
   N = 3
   ND = 3
   Mode = "single"
